@@ -5,7 +5,7 @@ import corpus
 import lib
 
 IMPLS = ('debug', 'release')
-KCHANNELS = ('DEC', 'DEC0', 'AVPS', 'TYPE', 'ENC', 'ENCA')
+KCHANNELS = ('DEC', 'DEC0', 'AVPS', 'TYPE', 'ENC', 'ENCA', 'HIDE', 'REVEAL', 'MD5')
 
 
 class Ctx:
